@@ -65,10 +65,10 @@ def install():
     orig_pcall = Problem.__call__
 
     @functools.wraps(orig_pcall)
-    def pcall(self, x, penalty=0.0):
+    def pcall(self, x, penalty=0.0, *a, **k):
         c = ctx.current()
         if c is None:
-            return orig_pcall(self, x, penalty)
+            return orig_pcall(self, x, penalty, *a, **k)
         xin = np.array(x, dtype=float, copy=True)
         rec = {
             "i": len(c.evals),
@@ -89,7 +89,7 @@ def install():
         c.evals.append(rec)
         c.emit("eval.pre", pb=self, rec=rec)
         try:
-            ret = orig_pcall(self, x, penalty)
+            ret = orig_pcall(self, x, penalty, *a, **k)
         except BaseException as exc:  # noqa: BLE001 - recorded, re-raised
             rec["exc"] = type(exc).__name__
             rec["log1"] = len(c.log)
@@ -110,7 +110,7 @@ def install():
     orig_build = cmain._build_result
 
     @functools.wraps(orig_build)
-    def build_result(pb, penalty, success, status, n_iter, options):
+    def build_result(pb, penalty, success, status, n_iter, options, *a, **k):
         c = ctx.current()
         if c is not None:
             c.final = {
@@ -124,15 +124,16 @@ def install():
             }
             c.next_kind = "final"
             c.emit("final", pb=pb, tr=c.tr, final=c.final)
-        return orig_build(pb, penalty, success, status, n_iter, options)
+        return orig_build(pb, penalty, success, status, n_iter, options, *a,
+                          **k)
 
     _patch(cmain, "_build_result", build_result)
 
     orig_sdo = cmain._set_default_options
 
     @functools.wraps(orig_sdo)
-    def set_default_options(options, n):
-        out = orig_sdo(options, n)
+    def set_default_options(options, n, *a, **k):
+        out = orig_sdo(options, n, *a, **k)
         c = ctx.current()
         if c is not None:
             c.settings["options"] = dict(options)
@@ -159,14 +160,14 @@ def install():
     orig_tinit = TrustRegion.__init__
 
     @functools.wraps(orig_tinit)
-    def tinit(self, pb, options, constants):
+    def tinit(self, pb, options, constants, *a, **k):
         c = ctx.current()
         if c is not None:
             c.tr = self
             c.settings["tr_options"] = dict(options)
             c.settings["tr_constants"] = dict(constants)
             c.emit("tr.init.pre", tr=self, options=options, constants=constants)
-        orig_tinit(self, pb, options, constants)
+        orig_tinit(self, pb, options, constants, *a, **k)
         if c is not None:
             c.settings["tr_options_post"] = dict(options)
             c.emit("tr.init.post", tr=self, options=options)
@@ -217,8 +218,8 @@ def install():
     orig_rm = TrustRegion.__dict__["get_index_to_remove"]
 
     @functools.wraps(orig_rm)
-    def get_index_to_remove(self, x_new=None):
-        out = orig_rm(self, x_new)
+    def get_index_to_remove(self, x_new=None, *a, **k):
+        out = orig_rm(self, x_new, *a, **k)
         c = ctx.current()
         if c is not None:
             c.emit("tr.remove", tr=self, x_new=x_new, out=out)
@@ -244,10 +245,10 @@ def install():
     orig_minit = Models.__init__
 
     @functools.wraps(orig_minit)
-    def minit(self, pb, options, penalty):
+    def minit(self, pb, options, *a, **k):
         c = ctx.current()
         try:
-            orig_minit(self, pb, options, penalty)
+            orig_minit(self, pb, options, *a, **k)
         except BaseException as exc:  # noqa: BLE001
             if c is not None:
                 c.emit("models.init.exc", models=self, exc=exc)
